@@ -6,6 +6,7 @@ use crate::util::report::{finish, Ctx, Meta, Report, ReportData};
 use std::path::PathBuf;
 
 pub mod c01;
+pub mod c02;
 pub mod c03;
 pub mod c04;
 pub mod c05;
@@ -13,6 +14,7 @@ pub mod c06;
 pub mod c07;
 pub mod c08;
 pub mod c09;
+pub mod c10;
 pub mod c13;
 pub mod c15;
 pub mod c16;
@@ -32,6 +34,7 @@ pub struct CheckDef {
 pub fn registry() -> Vec<CheckDef> {
     vec![
         c01::def(),
+        c02::def(),
         c03::def(),
         c04::def(),
         c05::def(),
@@ -39,6 +42,7 @@ pub fn registry() -> Vec<CheckDef> {
         c07::def(),
         c08::def(),
         c09::def(),
+        c10::def(),
         c13::def(),
         c15::def(),
         c16::def(),
@@ -174,5 +178,5 @@ pub fn selftest() -> i32 {
 
 /// judges that run inside worker children (`rpmverif worker <name>`)
 pub fn worker_judges() -> Vec<(&'static str, crate::monitor::worker::Judge)> {
-    vec![("c04", c04::judge_c04), ("c01", c01::judge_c01), ("c03", c03::judge_c03)]
+    vec![("c04", c04::judge_c04), ("c01", c01::judge_c01), ("c03", c03::judge_c03), ("c02b", c02::judge_c02b)]
 }
